@@ -45,8 +45,12 @@ def strategy(draw):
     sd = dict(level=draw(gen.log_floats(0.05, 1.5)), ripple=draw(gen.floats(0, 0.8)), k=draw(gen.floats(1, 6)), phase=draw(gen.floats(0, 6.28)))
     band = sum(f0t >= e for e in EDGES)
     fstd = f0t * TABLE[band][0] * draw(gen.log_floats(0.1, 10.0))
-    kind = draw(st.sampled_from(["none", "none", "low", "high", "both", "both", "exclude-peak"]))
+    kind = draw(st.sampled_from(["none", "none", "low", "high", "both", "both", "exclude-peak", "narrow"]))
     lo = hi = None
+    if kind == "narrow":
+        # a tight range around the peak: the +- one standard deviation curves may then have no interior maximum at all
+        lo = f0t * draw(gen.floats(0.8, 0.97))
+        hi = f0t * draw(gen.floats(1.03, 1.25))
     if kind in ("low", "both"):
         lo = f0t * draw(gen.floats(0.1, 0.85))
     if kind in ("high", "both"):
